@@ -23,3 +23,20 @@ contract(
     from_property="a chain ... raises CalledProcessError iff the last command that ran failed (every outermost chain containing a command is wrapped - "
                   "also the ones that come after a pure-Python and/or in the same input)",
 )
+
+# ---- a standalone command statement gets the raise check exactly once --------------------------------------------------------
+STMT = Obj("stmt", value=Union(NoneT, NODE))
+contract(
+    PB + "_SubprocChainRaiseWrapper._maybe_wrap_stmt_value", "C05", params=dict(self=WRAPPER, stmt=STMT),
+    externals={"getattr": Ext(model=lambda R, a, k, n, f, r: R.getattr(a[0], "value"), note="getattr(stmt, 'value', None) on a statement that has the field"),
+               "_is_subproc_check_boolop_call": Ext(ret=Bool, pure=True, uf="is_check"), "is_check": Ext(ret=Bool, pure=True, uf="is_check"),
+               "_is_raising_subproc_helper_call": Ext(ret=Bool, pure=True, uf="is_raising"), "is_raising": Ext(ret=Bool, pure=True, uf="is_raising"),
+               "self._wrap": Ext(ret=NODE, pure=True, uf="wrapped"), "_SubprocChainRaiseWrapper._wrap": Ext(ret=NODE, pure=True, uf="wrapped"),
+               "wrapped": Ext(ret=NODE, pure=True, uf="wrapped")},
+    modifies=["stmt.value"],
+    ensures={"a-bare-command-or-![]-statement-gets-the-raise-check-exactly-once-and-nothing-else-is-touched":
+             "implies(old(stmt.value) is None, stmt.value is None) and "
+             "implies(old(stmt.value) is not None, stmt.value == (wrapped(old(stmt.value)) if (not is_check(old(stmt.value)) and is_raising(old(stmt.value))) else old(stmt.value)))"},
+    from_property="after the statement a CalledProcessError is raised iff the last command that ran failed - except !() results (captured forms are not wrapped; a value the chain "
+                  "pass already wrapped is not wrapped twice)",
+)
